@@ -26,7 +26,8 @@ RULE = ("Scenario = component in {LAO*, LRTDP, A* (random tie-break), BFS (rando
         "bit-identical before and after a seeded run; (3) three extra interpreter processes with different "
         "PYTHONHASHSEED return the same digest. Non-trivial: a scenario whose digest changes when the seed is "
         "changed (measured); distinct by spec hash."
-        ' Also: numpy-integer seeds, conditioned implicit distributions (boolean / 0-1 / fractional predicates), repeats on one shared problem object whose actions() hands out stored lists.')
+        ' Also: numpy-integer seeds, conditioned implicit distributions (boolean / 0-1 / fractional predicates), repeats on one shared problem object whose actions() hands out stored lists.'
+        ' One-element Uniform- / DictDistributions in the search scenarios.')
 ASSUMPTIONS = ["hash randomisation is sampled by four interpreter processes per shard (PYTHONHASHSEED 0 and three values "
                "derived from VERIF_SEED)", "last-bit float differences (beyond 11 significant digits) are not counted"]
 
